@@ -47,7 +47,7 @@ class PCCC_ASCII(PCCCStringType):
 
     @classmethod
     def _decode(cls, stream: BytesIO) -> str:
-        return cls._slc_string_swap(stream.read(2)).decode(cls.encoding)
+        return cls._slc_string_swap(cls._stream_read(stream, 2)).decode(cls.encoding)
 
 
 class PCCC_STRING(PCCCStringType):
